@@ -134,7 +134,7 @@ func (propC20) InputType() string      { return "C20Run.input" }
 func (propC20) ObsType() string        { return "C20Run.obs" }
 func (propC20) Exhaustive(string) bool { return false }
 func (propC20) Rule() string {
-	return "sequences of 1-4 queries sharing one caller map (empty or pre-populated; plus streams without WithVars / WithVars(nil)); each query: 1-5 select items (SETVAR / GETVAR / pure) over a 0-6 row table or dual, 1-3 literal keys plus keys taken from columns, values = literals, columns, arithmetic, counters SETVAR(k, GETVAR(k)+n1), copies, CASE; optional WHERE (pure or reading GETVAR('lim')); a systematic sweep of the SETVAR position x list length x row count; observable = rows of every query and the caller's map after every query (also after a failing one); non-trivial = the sequence has a SETVAR and a GETVAR item, some query returned at least one row and the map changed; distinct = distinct (document, map, queries)"
+	return "sequences of 1-4 queries sharing one caller map (empty or pre-populated; plus streams without WithVars / WithVars(nil)); each query: 1-5 select items (SETVAR / GETVAR / pure) over a 0-6 row table or dual, 1-3 literal keys plus keys taken from columns, values = literals, columns, arithmetic, counters SETVAR(k, GETVAR(k)+n1), copies, CASE; optional WHERE (pure or reading GETVAR('lim')); a systematic sweep of the SETVAR position x list length x row count; a look-alike stream (consecutive writes to one key of values that differ in kind but print the same under %v, across positions / rows / queries, compared type-exactly); two large tables (600 and 1100 rows: prev<-id chain and a counter); observable = rows of every query and the caller's map after every query (also after a failing one); non-trivial = the sequence has a SETVAR and a GETVAR item, some query returned at least one row and the map changed; distinct = distinct (document, map, queries)"
 }
 
 func (propC20) Observe(raw json.RawMessage) (Observed, error) {
@@ -258,6 +258,10 @@ func (g *c20Gen) value(self *Expr, allowErr bool) *Expr {
 		g.tag("val:num-literal")
 		return Num(Pick(r, numPool))
 	case p < 15:
+		if r.Chance(40) {
+			g.tag("val:str-literal-lookalike")
+			return Str(Pick(r, []string{"0", "1", "2", "5", "10", "-1", "0.5", "true", "false", "<nil>"}))
+		}
 		g.tag("val:str-literal")
 		return Str(Pick(r, strPool))
 	case p < 18:
@@ -534,6 +538,103 @@ func genC20(r *Rand, tier string) []Case {
 			g.tag(fmt.Sprintf("tablerows:%d", len(t.rows)))
 			mk(c20In{Doc: doc, Mode: "map", Vars: c20InitialVars(r, g), Qs: []c20Query{setup, bad, after}}, g.tags, len(t.rows) > 0)
 		}
+	}
+	// (1c) look-alike values: consecutive writes to ONE key whose values differ in kind but print
+	// the same under %v (1 / '1', TRUE / 'true', NULL / '<nil>', [1 2] / '[1 2]', map / its text),
+	// across select-list positions, across rows and across queries, each followed by a GETVAR.
+	// Rows and map are compared type-exactly (VNum / VStr / VBool / VNull / VArr / VObj).
+	type pair struct {
+		name string
+		a, b *Expr // same text, different kind
+		ga   any   // Go value of a (for pre-populated maps and mixed columns)
+		gb   any
+	}
+	nul := func() *Expr { return &Expr{K: "null"} }
+	boolE := func(b bool) *Expr { return &Expr{K: "bool", Bool: b} }
+	pairs := []pair{
+		{"num1", Num(1), Str("1"), 1.0, "1"},
+		{"num7", Num(7), Str("7"), 7.0, "7"},
+		{"num0", Num(0), Str("0"), 0.0, "0"},
+		{"frac", Num(0.5), Str("0.5"), 0.5, "0.5"},
+		{"neg", Num(-2), Str("-2"), -2.0, "-2"},
+		{"true", boolE(true), Str("true"), true, "true"},
+		{"false", boolE(false), Str("false"), false, "false"},
+		{"null", nul(), Str("<nil>"), nil, "<nil>"},
+		{"array", Col("arr"), Str("[1 2]"), []any{1.0, 2.0}, "[1 2]"},
+		{"object", Col("ob"), Str("map[a:1]"), map[string]any{"a": 1.0}, "map[a:1]"},
+		{"arith", Bin("+", Col("id"), Num(0)), Col("ids"), nil, nil}, // id+0 (number) vs the column holding its text
+	}
+	lreps := 2
+	if tier == "thorough" {
+		lreps = 12
+	}
+	for _, pr := range pairs {
+		for _, swap := range []bool{false, true} {
+			a, b, ga, gb := pr.a, pr.b, pr.ga, pr.gb
+			if swap {
+				a, b, ga, gb = b, a, gb, ga
+			}
+			for rep := 0; rep < lreps; rep++ {
+				nrows := r.Range(1, 4)
+				var rows []any
+				for i := 0; i < nrows; i++ {
+					row := map[string]any{"id": float64(i + 1), "ids": fmt.Sprintf("%d", i+1), "arr": []any{1.0, 2.0}, "ob": map[string]any{"a": 1.0}}
+					// a column that alternates the two kinds from row to row
+					if pr.ga != nil || pr.name == "null" {
+						if i%2 == 0 {
+							row["mix"] = ga
+						} else {
+							row["mix"] = gb
+						}
+					}
+					rows = append(rows, row)
+				}
+				doc := map[string]any{"t": rows}
+				k := Str(Pick(r, c20Keys))
+				get := func(n string) c20Item { return c20Item{K: "get", Key: k, Name: n} }
+				set := func(e *Expr) c20Item { return c20Item{K: "set", Key: k, E: e} }
+				tagsFor := func(place string) map[string]bool {
+					return map[string]bool{"stream:lookalike": true, "look:" + pr.name: true, "look:place-" + place: true, fmt.Sprintf("look:swap-%v", swap): true}
+				}
+				// positions within one row (and, with several rows, b of row i then a of row i+1)
+				mk(c20In{Doc: doc, Mode: "map", Vars: map[string]any{}, Qs: []c20Query{
+					{Table: "t", Items: []c20Item{set(a), get("g1"), set(b), get("g2")}},
+					{Table: "t", Items: []c20Item{get("after")}}}}, tagsFor("positions"), true)
+				// across queries sharing the map; the first value may also come from the caller
+				vars := map[string]any{}
+				q1 := []c20Query{{Table: "t", Items: []c20Item{set(a), get("g1")}}}
+				if pr.name != "arith" && r.Bool() {
+					vars[k.Str] = ga
+					q1 = nil
+				}
+				mk(c20In{Doc: doc, Mode: "map", Vars: vars, Qs: append(q1,
+					c20Query{Table: "t", Items: []c20Item{get("before"), set(b), get("g2")}},
+					c20Query{Table: "t", Items: []c20Item{get("after")}},
+					c20Query{Table: "t", Items: []c20Item{set(a)}},
+					c20Query{Table: "t", Items: []c20Item{get("last")}})}, tagsFor("queries"), true)
+				// across rows: the written value alternates in kind from row to row
+				if pr.ga != nil || pr.name == "null" {
+					mk(c20In{Doc: doc, Mode: "map", Vars: map[string]any{}, Qs: []c20Query{
+						{Table: "t", Items: []c20Item{get("prev"), set(Col("mix")), get("seen")}},
+						{Table: "t", Items: []c20Item{get("after")}}}}, tagsFor("rows"), nrows > 1)
+				}
+			}
+		}
+	}
+	// (1d) large tables: the evaluation order must hold at any size (a chain prev <- id and a counter)
+	for _, nrows := range []int{600, 1100} {
+		rows := make([]any, nrows)
+		for i := range rows {
+			rows[i] = map[string]any{"id": float64(i + 1)}
+		}
+		items := []c20Item{{K: "get", Key: Str("p"), Name: "prev"}, {K: "set", Key: Str("p"), E: Col("id")},
+			{K: "set", Key: Str("c"), E: Bin("+", call("GETVAR", Str("c")), Num(1))}}
+		if nrows > 1000 {
+			items = append(items, c20Item{K: "get", Key: Str("c"), Name: "n"})
+		}
+		mk(c20In{Doc: map[string]any{"t": rows}, Mode: "map", Vars: map[string]any{"c": 0.0},
+			Qs: []c20Query{{Table: "t", Items: items}}},
+			map[string]bool{"stream:large": true, fmt.Sprintf("size:%d", nrows): true}, true)
 	}
 	// (2) random sequences
 	for i := 0; i < n; i++ {
